@@ -20,7 +20,8 @@ PlugScenarios == {"ok", "no-plug-happened", "socket-not-a-component", "missing-f
 ParseScenarios == {"ok", "parse-error", "missing-file"}
 \* (README.md documents `wac targets <component> --wit <wit>`; it used to show a positional WIT
 \* path that the command rejects -- repaired in the README, see known_findings.json)
-TargetsScenarios == {"ok", "mismatch", "missing-file"}
+\* "unknown-world": --world names a world the WIT package does not contain (with or without other worlds)
+TargetsScenarios == {"ok", "mismatch", "missing-file", "unknown-world"}
 
 ComposeRows ==
   [cmd : {"compose"}, scenario : ComposeScenarios, t : BOOLEAN, o : BOOLEAN, import_deps : BOOLEAN,
